@@ -361,6 +361,10 @@ int fp_prime_get_2ad(void) {
 }
 
 void fp_prime_set_dense(const bn_t p) {
+#if FP_RDC == QUICK || !defined(STRIP)
+	/* A dense modulus has no sparse form: drop the one of a previous prime. */
+	core_get()->sps_len = 0;
+#endif
 	fp_prime_set(p);
 #if FP_RDC == QUICK
 	RLC_THROW(ERR_NO_CONFIG);
